@@ -488,6 +488,10 @@ func checkProperty(p *Prog, loadErr error, pd *PropDef, tier string, start time.
 			return 1
 		}
 	}
+	if jsonOut {
+		b, _ := json.Marshal(viols)
+		fmt.Printf("JSON-VIOLATIONS: %s\n", string(b))
+	}
 	fmt.Printf("%s tier=%s obligations=%d discharged=%d known=%d violations=%d wall=%.1fs\n", pd.ID, tier, totalObs, discharged, knownCnt, len(viols), wall)
 	if len(viols) > 0 {
 		return 1
@@ -541,53 +545,66 @@ func doExplain(path string) int {
 	return 0
 }
 
-func doSelftest(rule string) int {
+func doSelftest(sel string) int {
 	ctls, err := loadControls()
 	if err != nil {
 		fmt.Println(err)
 		return 2
 	}
-	byRule := map[string][]Control{}
+	type job struct {
+		c    Control
+		prop string
+	}
+	var jobs []job
 	for _, c := range ctls {
-		if rule == "all" || c.Rule == rule {
-			byRule[c.Rule] = append(byRule[c.Rule], c)
+		if !(sel == "all" || c.Rule == sel || c.ID == sel || strings.HasPrefix(c.ID, sel)) {
+			match := false
+			for _, pid := range c.Properties {
+				if pid == sel {
+					match = true
+				}
+			}
+			if !match {
+				continue
+			}
+		}
+		for _, pid := range c.Properties {
+			if propTable[pid] == nil {
+				continue
+			}
+			if strings.HasPrefix(sel, "C") && len(sel) == 3 && pid != sel {
+				continue
+			}
+			jobs = append(jobs, job{c, pid})
 		}
 	}
+	type res struct{ id, v, m string }
+	out := make([]res, len(jobs))
+	var wg sync.WaitGroup
+	sem := make(chan struct{}, 8)
+	for i, j := range jobs {
+		wg.Add(1)
+		go func(i int, j job) {
+			defer wg.Done()
+			sem <- struct{}{}
+			defer func() { <-sem }()
+			v, m := runOneControl(j.c, j.prop)
+			out[i] = res{j.c.ID + "@" + j.prop, v, m}
+		}(i, j)
+	}
+	wg.Wait()
 	bad := 0
-	for _, rn := range sortedKeys(byRule) {
-		rr, err := runRuleInScratch(repoDir(), rn)
-		if err != nil || rr.LoadErr != "" {
-			fmt.Println("baseline failed", rn, err)
-			return 1
+	cnt := map[string]int{}
+	for _, o := range out {
+		cnt[o.v]++
+		if o.v == "failed" || o.v == "skipped" {
+			fmt.Printf("%-10s %-44s %s\n", o.v, o.id, o.m)
 		}
-		base := map[string]bool{}
-		for _, o := range rr.Obs {
-			if !o.OK {
-				base[o.Key] = true
-			}
-		}
-		type res struct{ id, v, m string }
-		out := make([]res, len(byRule[rn]))
-		var wg sync.WaitGroup
-		sem := make(chan struct{}, 8)
-		for i, c := range byRule[rn] {
-			wg.Add(1)
-			go func(i int, c Control) {
-				defer wg.Done()
-				sem <- struct{}{}
-				defer func() { <-sem }()
-				v, m := runOneControl(c, base)
-				out[i] = res{c.ID, v, m}
-			}(i, c)
-		}
-		wg.Wait()
-		for _, o := range out {
-			fmt.Printf("%-10s %-40s %s\n", o.v, o.id, o.m)
-			if o.v == "failed" {
-				bad++
-			}
+		if o.v == "failed" {
+			bad++
 		}
 	}
+	fmt.Printf("controls: %v\n", cnt)
 	if bad > 0 {
 		return 1
 	}
